@@ -519,6 +519,17 @@ SIZES = {
 }
 
 
+EDGE_BASES = [
+    (("a", "b"), [("Top", "Top")]),
+    (("a", "b"), [("b", "b")]),
+    (("a", "b"), [("b", "a"), ("a", "a")]),
+    (("a", "b", "c"), [("a;!a", "b;!b"), ("c", "b")]),
+    (("a", "b"), [("b", "a"), ("Top", "a")]),
+    (("a", "b"), [("Bottom", "a"), ("b", "Top")]),
+    (("a", "b", "c"), [("b", "a"), ("!b", "a,c"), ("Bottom", "c,b")]),
+]
+
+
 def corpus(prop, tier, seed):
     """-> list of cases {"id", "group", "base", "sig", "triples", "qtexts", "size", "timeout"}"""
     from oracle.gen import rnd_conditional
@@ -598,6 +609,11 @@ def corpus(prop, tier, seed):
             qf = os.path.join(rdir, f"randomQueries_{a}_{b}_{i}.clq")
             if os.path.isfile(kb) and os.path.isfile(qf):
                 add_file("random_large", kb, [qf], 4 if gq else 0, timeout=0 if a + b <= 80 else 150)
+    # hand-written degenerate bases: unfalsifiable / tautological conditionals, an infinity layer (extended mode only)
+    edge_q = [("Bottom", "Top"), ("a", "Top"), ("b", "a"), ("Bottom", "a"), ("a,!a", "Top"), ("b", "b"), ("Top", "Top"), ("a", "b"), ("!a", "b"), ("b", "a,!c")]
+    for i, (sig, cs) in enumerate(EDGE_BASES):
+        triples = tuple((k + 1, b, a) for k, (b, a) in enumerate(cs))
+        cases.append(dict(id=f"EDGE#{i}", group="edge", base=("text", tuple(sig), triples), sig=tuple(sig), triples=triples, qtexts=list(edge_q) if (gq or sz["s3q"]) else [], qfiles=[], size=len(sig) + len(triples), timeout=0))
     # seeded S3 bases
     for i in range(sz["s3"]):
         sig, conds = s3_base(rng, consts=0.07)
